@@ -52,6 +52,7 @@ def jI (i : Int) : Json := .num (JsonNumber.fromInt i)
 def resJson : Res → Json
   | .start t => .arr #[.str "start", jI t]
   | .ended => .arr #[.str "ended"]
+  | .never => .arr #[.str "never"]
   | .noObs t => .arr #[.str "noobs", jI t]
   | .diverged => .arr #[.str "diverged"]
 
@@ -71,7 +72,8 @@ def handle : DrvHandler := fun op args =>
       some (ok (Json.mkObj [
         ("res", resJson (nextStartN cfg (pviewOf obs) fuel r)),
         ("wake", wakeJson (wake cfg r)),
-        ("done", .bool (match out with | .done => true | .retry _ => false)),
+        ("done", .bool (match out with | .retry _ => false | _ => true)),
+        ("failed", .bool (match out with | .failed => true | _ => false)),
         ("delay", match out with | .retry (some d) => jI d | _ => .null),
         ("attempt", .num (JsonNumber.fromNat (nextAttempt cfg r)))]))
   | "C10.first", [cj, sj, oj, fj] => do
